@@ -27,7 +27,7 @@ META = {
     'text': 'Coq theorems (Props/C18.v): (1) for any number of threads and any schedule, programs that touch shared '
             'state only inside the one lock are serializable and deadlock-free (induction over schedules, unbounded '
             'pre-emptions); the lock discipline is decided by vm_compute on step lists extracted from the Python ast of '
-            'SessionCache, BaseDB/VerifierDB and Python_RSAKey._rawPrivateKeyOp on every run; (2) the blinding pair '
+            'every public method of SessionCache, BaseDB/VerifierDB and Python_RSAKey/RSAKey (discovered, per path) on every run; (2) the blinding pair '
             'invariant is preserved and every concurrent private-key call returns m^d mod n; (3) the sequential '
             'SessionCache model refines the abstract log specification, is size-bounded and raises no internal error for '
             'ALL histories with a monotone clock (repeated IDs included; maxEntries >= 1, the guard is shown necessary).',
@@ -59,10 +59,13 @@ LEAK_WITNESS = (2, 100, [(0, ('put', 1, 10)), (0, ('put', 1, 11)), (0, ('put', 2
 
 # ------------------------------------------------------------------ sequential generation
 def gen_history(rng, mode, maxlen):
+    # the clock is an input of every call: clock values and maxAge are in ticks of 1/8 s, so the real class sees
+    # real-valued times with steps of 0, fractions of a second, whole seconds, exactly maxAge, maxAge +- 1/8 s
     n = rng.choice([1, 2, 2, 3, 3, 4, 5, 8])
-    max_age = rng.choice([0, 1, 5, 5, 20, 100])
+    max_age = rng.choice([0, 1, 5, 8, 8, 20, 40, 80, 80, 100, 800])
     length = rng.randrange(1, maxlen + 1)
-    t = rng.choice([0, 0, 7, 1000])
+    t = rng.choice([0, 0, 7, 8001, 1000 * 8 + 2])
+    sweep_at = rng.randrange(2, max(3, length)) if rng.random() < 0.5 else None
     hist = []
     next_id = 1
     next_s = 100
@@ -70,9 +73,21 @@ def gen_history(rng, mode, maxlen):
     sessions = []
     pool = list(range(1, 5))
     shape = rng.choice(['mixed', 'mixed', 'fill', 'expire', 'invalidate'])
-    for _ in range(length):
-        t += rng.choice([0, 0, 0, 1, 1, 2, max_age, max_age + 1, max(0, max_age - 1)])
+    last_put_t = None
+    sweeping = 0
+    for k in range(length):
+        if sweep_at == k and last_put_t is not None:
+            # lookups close together (sub-second steps) across the moment the newest entries expire
+            t = max(t, last_put_t + max_age - rng.choice([1, 2, 5, 9]))
+            sweeping = rng.randrange(4, 10)
+        elif sweeping:
+            t += rng.choice([0, 1, 1, 2, 3, 4, 7])
+        else:
+            t += rng.choice([0, 0, 0, 1, 1, 2, 4, 7, 8, 9, 16, max_age, max_age + 1, max(0, max_age - 1)])
         x = rng.random()
+        if sweeping:
+            sweeping -= 1
+            x = 0.5 if stored else x            # a lookup
         if shape == 'fill':
             p_put, p_get = 0.7, 0.25
         elif shape == 'expire':
@@ -92,6 +107,7 @@ def gen_history(rng, mode, maxlen):
             sessions.append(s)
             stored.append(i)
             hist.append((t, ('put', i, s)))
+            last_put_t = t
         elif x < p_put + p_get:
             if stored and rng.random() < 0.85:
                 i = rng.choice(stored[-(n + 2):]) if rng.random() < 0.7 else rng.choice(stored)
@@ -120,6 +136,13 @@ def boundary_histories():
                 continue
             out.append((3, age, [(5, ('put', 1, 100)), (5, ('put', 2, 101)), (5 + dt, ('get', 1)), (5 + dt, ('get', 2)),
                                  (5 + dt, ('put', 3, 102)), (5 + dt + age + 1, ('purge',)), (5 + dt + age + 1, ('get', 3))]))
+    for age in (8, 80):                       # 1 s and 10 s in ticks; lookups 1/8 .. 7/8 s apart around the expiry
+        for first in (age - 2, age - 1, age):
+            for gap in (1, 2, 4, 7, 8):
+                out.append((3, age, [(8002, ('put', 1, 100)), (8002 + first, ('get', 1)),
+                                     (8002 + first + gap, ('get', 1)), (8002 + first + 2 * gap, ('get', 1)),
+                                     (8002 + first + 2 * gap, ('put', 2, 101)), (8002 + first + 3 * gap, ('get', 1)),
+                                     (8002 + first + 3 * gap, ('get', 2))]))
     out.append((3, 10, [(0, ('put', 1, 100)), (0, ('valid', 100, False)), (0, ('get', 1)), (0, ('valid', 100, True)),
                         (0, ('get', 1)), (11, ('get', 1))]))
     return out
@@ -186,7 +209,7 @@ def cache_scenarios(rng, k):
                 else:
                     ops.append(('get', rng.randrange(1, nid + 1)))
             threads.append(ops or [('get', 1)])
-        dt = rng.choice([0, 1, 1, 3])
+        dt = rng.choice([0, 0.125, 1, 1, 3])
         jump = rng.choice([0, 0, 10, 100])
         if dt or jump:                                   # let time pass between calls as well
             threads = [[x for op in th for x in ((('sleep', rng.choice([1, 5, 20, 60])),) if rng.random() < 0.4 else ())
@@ -269,7 +292,8 @@ def sequential_stage(ctx, res, n_hist, maxlen):
                     ctx.notes.append('duplicate-ID failure found by the random search and shrunk to: n=%d maxAge=%d %r (%s: %s)'
                                      % (n, a, small, f2[0], f2[2]))
                     if ctx.violation(KNOWN_DUP, 'SessionCache: storing the same session ID twice corrupts the cache: %s' % f2[2],
-                                     {'kind': 'seq', 'n': n, 'maxAge': a, 'history': jsonable(small), 'failure': list(f2)}):
+                                     {'kind': 'seq', 'n': n, 'maxAge': a, 'history': jsonable(small), 'failure': list(f2),
+                       'clock_unit': 'clock values and maxAge in ticks of 1/8 s (the class sees t/8.0)'}):
                         found = True
                     continue
                 h, f = small, f2      # shrinking removed the duplicate: a failure without duplicates
@@ -283,14 +307,23 @@ def sequential_stage(ctx, res, n_hist, maxlen):
         found = True
         ctx.violation('sessioncache:seq:%s' % f2[0], 'SessionCache violates the sequential specification without any '
                       'repeated ID: %s' % f2[2],
-                      {'kind': 'seq', 'n': n, 'maxAge': a, 'history': jsonable(small), 'failure': list(f2)})
+                      {'kind': 'seq', 'n': n, 'maxAge': a, 'history': jsonable(small), 'failure': list(f2),
+                       'clock_unit': 'clock values and maxAge in ticks of 1/8 s (the class sees t/8.0)'})
     ctx.log('sequential: %d histories on the real SessionCache against the property' % len(cases))
+    extra, missing = C.unmodelled_attributes()
+    if extra or missing:
+        tie = ('SessionCache instance state differs from the model\'s state vector: not modelled %r, not present %r '
+               '(Model/C18_Cache.v has to follow)' % (extra, missing))
     # ---- model evaluated on the same histories
     if res['model_ok']:
         lits = [C.case_lit(n, a, h, obs) for (n, a, h, _), obs in zip(cases, all_obs)]
-        (bad_model, bad_spec), errs = vlib.coq_bad_indices(
-            'C18', ['Base.C18_Lib', 'Model.C18_Cache', 'Spec.C18_CacheSpec'], 'CaseT', ['chk_model', 'chk_spec'],
-            lits, shard=max(8, (len(lits) + 15) // 16), preamble=PREAMBLE)
+        for attempt in range(3):
+            (bad_model, bad_spec), errs = vlib.coq_bad_indices(
+                'C18', ['Base.C18_Lib', 'Model.C18_Cache', 'Spec.C18_CacheSpec'], 'CaseT', ['chk_model', 'chk_spec'],
+                lits, shard=max(8, (len(lits) + 15) // 16), preamble=PREAMBLE, timeout=2400)
+            if not any(('rc=-9' in e or 'rc=137' in e or 'rc=124' in e or 'rc=-15' in e) for e in errs):
+                break                                 # a coqc killed from outside / by load is retried, not reported
+            ctx.log('case evaluation interrupted from outside, retrying (%d)' % (attempt + 1))
         ctx.count('seq-model-vs-impl(vm_compute)', len(lits), [('agree', len(lits) - len(bad_model))])
         for e in errs:
             tie = 'case evaluation failed: ' + e[:400]
@@ -390,6 +423,41 @@ def explore_all(ctx, quick, deep):
                            'seed': seed, 'fresh': True})
             break
     ctx.log('concurrent RSA: %d schedules, %.1fs' % (nruns, time.time() - t0))
+    # ---- the whole public API of the shared key (every method that can touch instance state)
+    t0 = time.time()
+    nruns = 0
+    akey = C.api_key()
+    if not C.key_hypotheses(akey, rng, samples=2):
+        raise RuntimeError('API test key fails H-rsa-key')
+    import hashlib
+    def dg(alg, i):
+        return hashlib.new(alg, b'message %d' % i).digest()
+    api_scns = [
+        [[('sign', dg('sha256', 1), 'sha256')], [('sign', dg('sha256', 2), 'sha256')]],
+        [[('sign', dg('sha1', 1), 'sha1'), ('sign', dg('sha1', 3), None)], [('sign', dg('sha1', 2), 'sha1')]],
+        [[('hashAndSign', b'alpha', 'PKCS1', 'sha384')], [('hashAndSign', b'beta', 'PKCS1', 'sha384')],
+         [C.api_prepare(akey, ('hashAndVerify', b'gamma', 'sha256', True), rng)]],
+        [[C.api_prepare(akey, ('decrypt', b'secret one'), rng)], [C.api_prepare(akey, ('decrypt', b'secret two'), rng)]],
+        [[('encrypt', b'plain A')], [('encrypt', b'plain B')], [C.api_prepare(akey, ('decrypt', b'plain C'), rng)]],
+        [[('hashAndSign', b'alpha', 'PSS', 'sha256', 32)], [('hashAndSign', b'beta', 'PSS', 'sha256', 32)]],
+        [[C.api_prepare(akey, ('hashAndVerify', b'x', 'sha1', True), rng), ('sign', dg('sha512', 1), 'sha512')],
+         [C.api_prepare(akey, ('hashAndVerify', b'x', 'sha1', False), rng), ('sign', dg('sha512', 2), 'sha512')]],
+    ]
+    aseed = rng.randrange(1 << 30)
+    for ai, threads in enumerate(api_scns if not quick else api_scns[:6]):
+        for pp, r in C.explore(lambda pp: C.run_api_schedule(akey, threads, pp, aseed), len(threads), depth,
+                               (70 if quick else 500) * (3 if deep else 1), rng, 3 if quick else 20):
+            nruns += 1
+            ctx.count('conc-rsa-api', 1, [(ai, tuple(r['sched'].switches))])
+            f = C.check_api_run(akey, threads, r)
+            if f:
+                found = True
+                if ctx.violation('rsa:api:%s' % f[0], 'shared Python_RSAKey, public API under real threads: %s' % f[1],
+                                 {'kind': 'api-conc', 'threads': [[[x.hex() if isinstance(x, (bytes, bytearray)) else x
+                                                                    for x in op] for op in th] for th in threads],
+                                  'preempts': list(pp), 'seed': aseed}):
+                    break
+    ctx.log('concurrent RSA public API: %d schedules, %.1fs' % (nruns, time.time() - t0))
     # ---- VerifierDB
     t0 = time.time()
     nruns = 0
@@ -493,6 +561,16 @@ def replay(ctx, path):
         run_ = C.run_rsa_schedule(key, r['msgs'], [tuple(p) for p in r['preempts']], r['seed'], fresh=r.get('fresh', True))
         f = C.check_rsa_run(key, r['msgs'], run_)
         print('results:', run_['results'], 'switches:', run_['sched'].switches)
+        print('property failure:', f)
+        return 1 if f else 0
+    if kind == 'api-conc':
+        key = C.api_key()
+        BYTES_AT = {'sign': (1,), 'hashAndSign': (1,), 'decrypt': (1, 2), 'encrypt': (1,), 'hashAndVerify': (1, 4)}
+        threads = [[tuple(bytes.fromhex(x) if i in BYTES_AT[op[0]] else x for i, x in enumerate(op)) for op in th]
+                   for th in r['threads']]
+        run_ = C.run_api_schedule(key, threads, [tuple(p) for p in r['preempts']], r['seed'])
+        f = C.check_api_run(key, threads, run_)
+        print('switches:', run_['sched'].switches)
         print('property failure:', f)
         return 1 if f else 0
     if kind == 'db-conc':
